@@ -6,6 +6,10 @@ ALL = ['C%02d' % i for i in range(1, 21)]
 
 # id -> (engine, technique, level text, level note, design ref)
 CLAIMED = {
+ 'C13': ('E3-hypothesis', 'model-based property testing (Hypothesis include-graph generator materialised as real directory trees vs. Python reference expander), timeout as non-termination signal',
+         'Generated include graphs (trees, DAGs with sharing, self loops, cycles, missing targets, nested directories, absolute/relative/.. paths, transclude-base overrides, wildcards, {{TOC}}, over-long and unterminated markers) are expanded by the library and, sampled, by the CLI; acyclic graphs must equal an independent reference expansion byte for byte and give the right manifest, every graph must terminate with bounded output. Held on everything generated.',
+         'Trusted: Hypothesis, the reference expander in props/c13.py, the file system. A 20 s (+60 s confirmation) timeout is the non-termination signal.',
+         'DESIGN.md section 5, C13'),
  'C11': ('E3-hypothesis', 'model-based property testing (Hypothesis metadata-block generator vs. Python reference model norm_key/norm_val), update sequences through four API families',
          'Generated metadata blocks (key grammar, hostile values, continuation lines, YAML fences, LF/CRLF, three terminations) are queried through the string, DString, one-shot engine and a long-lived engine; has_metadata/end, key listing, value lookup under equivalent key spellings, update read-back, untouched other keys/body and the complete-HTML header are compared with an independent model. Held on everything generated.',
          'Trusted: Hypothesis, the Python model in props/c11.py. Documented precedences (URL lines, list items, empty first value, hard-break escape) are excluded by construction.',
